@@ -10,8 +10,10 @@ Definition lexes_bool (s : str) : bool :=
   end.
 
 Definition strlit_model_ok (c : strlit_case) : bool := let '(ps, obs, _, _) := c in str_eqb (requote ps) obs.
-(** the lexer model agrees with CPython on the produced argument *)
-Definition strlit_lexer_ok (c : strlit_case) : bool := let '(ps, obs, py_ok, _) := c in Bool.eqb (lexes_bool obs) py_ok.
+(** the lexer model agrees with CPython on the produced argument: what the model reads as ONE literal, CPython accepts.
+    (The converse is not demanded: text that is not one literal can still be valid Python — two adjacent literals are
+    an implicit concatenation — so an unsafe piece does not always produce a syntax error.) *)
+Definition strlit_lexer_ok (c : strlit_case) : bool := let '(ps, obs, py_ok, _) := c in implb (lexes_bool obs) py_ok.
 (** the harness's finding-class predicate is the complement of the theorem's guard *)
 Definition strlit_class_ok (c : strlit_case) : bool := let '(ps, _, _, in_class) := c in Bool.eqb (negb (forallb piece_safe ps)) in_class.
 (** spec: outside the finding class the produced argument is one literal *)
